@@ -13,6 +13,7 @@ func checkC07(p *Program, r *Result) {
 	r.Explanation = "Structural necessary conditions of 'corrupted chunk or attachment bytes are never read back as good data': " +
 		"(C07.a) in the lexer's loadChunk, the comparison of crc32.ChecksumIEEE(buffer) with the stored CRC has a mismatch branch that returns the invalid-CRC error, and the statement that makes the " +
 		"validated buffer the active reader is dominated by the comparison's pass branch (only a stored CRC of 0 bypasses the check); the hashed buffer is filled by a full read of exactly uncompressed_size bytes whose error returns; " +
+		"(C07.e) the error of the read that stages the chunk is only returned (directly or through %w) after errors.Is(err, io.EOF) was evaluated, so that a decoder running dry on a damaged frame is not reported as a clean end of file; " +
 		"(C07.o) the lexer state tested in front of the validation is written only by NewLexer and computed from LexerOptions.ValidateChunkCRCs alone (no other option or run-time event switches validation off); " +
 		"(C07.b) Lexer.Next returns loadChunk's error (as TokenError or, for the CRC error under EmitInvalidChunks, TokenInvalidChunk) — error-flow engine; " +
 		"(C07.d) crcReader.Read hashes exactly p[:n] and returns (n, err) unchanged; parseAttachmentReader routes every field and the data reader through the crcReader, and the stored CRC is read from the unwrapped reader; " +
@@ -141,6 +142,8 @@ func checkC07(p *Program, r *Result) {
 			r.violated("C07.a", fname, "hashed buffer filled by a full read", p.pos(sumCall.Pos()), "the buffer that is hashed is not the one filled by a full read of uncompressed_size bytes")
 		}
 	}
+	r.rule("C07.e", "a decoder running dry while the chunk is staged is not reported as io.EOF", 1)
+	checkStagedReadEOF(p, r, "C07.e", lc, sumCall)
 	r.rule("C07.o", "the ValidateChunkCRCs option alone decides, once, whether chunks are validated", 1)
 	checkValidationSwitch(p, r, "C07.o", lc, sumCall, chain)
 	// ---- b
